@@ -22,26 +22,27 @@ type BType struct {
 	Vals     []string // Go expressions; Vals[0] is the zero value
 	Nillable bool
 	SliceOf  int // for slice types usable as a variadic parameter: index of the element type, else -1
+	Elems    [][]int // for those: the element-table indexes of every value's elements
 }
 
 var bTypes = []BType{
-	0:  {"int", []string{"0", "7", "-3"}, false, -1},
-	1:  {"string", []string{`""`, `"a"`, `"héllo"`}, false, -1},
-	2:  {"bool", []string{"false", "true"}, false, -1},
-	3:  {"[]byte", []string{"[]byte(nil)", "[]byte{}", `[]byte("x")`}, true, -1},
-	4:  {"[]int", []string{"[]int(nil)", "[]int{}", "[]int{1, 2}", "[]int{0}"}, true, 0},
-	5:  {"map[string]int", []string{"map[string]int(nil)", "map[string]int{}", `map[string]int{"k": 1}`}, true, -1},
-	6:  {"*int", []string{"(*int)(nil)", "ptrA", "ptrB"}, true, -1},
-	7:  {"error", []string{"error(nil)", "errA", "errB"}, true, -1},
-	8:  {"any", []string{"any(nil)", "any(1)", `any("s")`, "any([]int{1})", "any((*int)(nil))", "any(errA)"}, true, -1},
-	9:  {"struct{ A int; B string }", []string{"struct{ A int; B string }{}", `struct{ A int; B string }{1, "x"}`}, false, -1},
-	10: {"func() int", []string{"(func() int)(nil)", "fnA"}, true, -1},
-	11: {"chan int", []string{"(chan int)(nil)", "chA"}, true, -1},
-	12: {"[]string", []string{"[]string(nil)", "[]string{}", `[]string{"x"}`, `[]string{"", "y", "z"}`}, true, 1},
-	13: {"[]any", []string{"[]any(nil)", "[]any{}", `[]any{1, nil, "x"}`, "[]any{nil}", "[]any{nil, errA, nil}"}, true, 8},
-	14: {"[]error", []string{"[]error(nil)", "[]error{}", "[]error{nil, errA}", "[]error{errB}"}, true, 7},
-	15: {"Named", []string{"Named(0)", "Named(5)"}, false, -1},
-	16: {"Iface", []string{"Iface(nil)", "Iface(implA{})", "Iface((*implB)(nil))"}, true, -1},
+	0:  {"int", []string{"0", "7", "-3"}, false, -1, nil},
+	1:  {"string", []string{`""`, `"a"`, `"héllo"`}, false, -1, nil},
+	2:  {"bool", []string{"false", "true"}, false, -1, nil},
+	3:  {"[]byte", []string{"[]byte(nil)", `[]byte("yz")`, `[]byte("x")`}, true, -1, nil},
+	4:  {"[]int", []string{"[]int(nil)", "[]int{}", "[]int{7, -3}", "[]int{0}"}, true, 0, [][]int{{}, {}, {1, 2}, {0}}},
+	5:  {"map[string]int", []string{"map[string]int(nil)", "map[string]int{}", `map[string]int{"k": 1}`}, true, -1, nil},
+	6:  {"*int", []string{"(*int)(nil)", "ptrA", "ptrB"}, true, -1, nil},
+	7:  {"error", []string{"error(nil)", "errA", "errB"}, true, -1, nil},
+	8:  {"any", []string{"any(nil)", "any(1)", `any("s")`, "any([]int{1})", "any((*int)(nil))", "any(errA)"}, true, -1, nil},
+	9:  {"struct{ A int; B string }", []string{"struct{ A int; B string }{}", `struct{ A int; B string }{1, "x"}`}, false, -1, nil},
+	10: {"func() int", []string{"(func() int)(nil)", "fnA"}, true, -1, nil},
+	11: {"chan int", []string{"(chan int)(nil)", "chA"}, true, -1, nil},
+	12: {"[]string", []string{"[]string(nil)", "[]string{}", `[]string{"a"}`, `[]string{"", "héllo", "a"}`}, true, 1, [][]int{{}, {}, {1}, {0, 2, 1}}},
+	13: {"[]any", []string{"[]any(nil)", "[]any{}", `[]any{1, nil, "s"}`, "[]any{nil}", "[]any{nil, errA, nil}"}, true, 8, [][]int{{}, {}, {1, 0, 2}, {0}, {0, 5, 0}}},
+	14: {"[]error", []string{"[]error(nil)", "[]error{}", "[]error{nil, errA}", "[]error{errB}"}, true, 7, [][]int{{}, {}, {0, 1}, {2}}},
+	15: {"Named", []string{"Named(0)", "Named(5)"}, false, -1, nil},
+	16: {"Iface", []string{"Iface(nil)", "Iface(implA{})", "Iface((*implB)(nil))"}, true, -1, nil},
 }
 
 var bVariadicSlices = []int{4, 12, 13, 14}
